@@ -163,6 +163,8 @@ func checkC12(c *Ctx) {
 		r.failf("parquet.Stats interface not found")
 		return
 	}
+	// the accumulators are fed each record's own values and levels exactly once (optional columns)
+	runFT(c, "FT", map[string]bool{"delta": true})
 	it := iface.Type().Underlying().(*types.Interface)
 	for _, path := range u.TC {
 		sp := u.SSAPkgs[path]
